@@ -26,25 +26,63 @@ fn main() {
     let stdin = std::io::stdin();
     let stdout = std::io::stdout();
     let mut out = std::io::BufWriter::new(stdout.lock());
+    let mut stuck = 0usize;
     for line in stdin.lock().lines() {
         let line = line.unwrap();
         let line = line.trim();
         if line.is_empty() {
             continue;
         }
-        let answer = match mode.as_str() {
-            "tokenize" => guarded(|| do_tokenize(&unhex(first_word(line)))),
-            "stages" => do_stages(&unhex(first_word(line))),
-            "generate" => guarded(|| do_generate(&unhex(first_word(line)))),
-            "repeat" => do_repeat(&unhex(first_word(line))),
-            "hash" => guarded(|| do_hash(&unhex(first_word(line)))),
-            "oset" => guarded(|| do_oset(line)),
-            "chars" => do_chars(line),
-            _ => panic!("unknown mode"),
+        let answer = if stuck >= 6 {
+            // several requests are already spinning in abandoned threads; do not start more
+            "(timeout skipped)".to_string()
+        } else {
+            let m = mode.clone();
+            let l = line.to_string();
+            match with_watchdog(stuck > 0, move || answer_request(&m, &l)) {
+                Some(a) => a,
+                None => {
+                    stuck += 1;
+                    "(timeout)".to_string()
+                }
+            }
         };
         writeln!(out, "{answer}").unwrap();
+        out.flush().unwrap();
     }
     out.flush().unwrap();
+    // abandoned (spinning) request threads die with the process
+    std::process::exit(0);
+}
+
+fn answer_request(mode: &str, line: &str) -> String {
+    match mode {
+        "tokenize" => guarded(|| do_tokenize(&unhex(first_word(line)))),
+        "stages" => do_stages(&unhex(first_word(line))),
+        "generate" => guarded(|| do_generate(&unhex(first_word(line)))),
+        "repeat" => do_repeat(&unhex(first_word(line))),
+        "hash" => guarded(|| do_hash(&unhex(first_word(line)))),
+        "oset" => guarded(|| do_oset(line)),
+        "chars" => do_chars(line),
+        _ => panic!("unknown mode"),
+    }
+}
+
+/// Runs one request on its own thread; `None` if it does not answer within KVH_TIMEOUT seconds
+/// (default 10).  A request that never returns keeps its thread (threads cannot be killed); the
+/// caller stops starting new requests after a few of those.
+fn with_watchdog(impatient: bool, f: impl FnOnce() -> String + Send + 'static) -> Option<String> {
+    let secs: u64 = std::env::var("KVH_TIMEOUT").ok().and_then(|s| s.parse().ok()).unwrap_or(10);
+    // after the first request that did not return, later ones get a quarter of the time
+    let secs = if impatient { (secs / 4).max(2) } else { secs };
+    let (tx, rx) = std::sync::mpsc::channel();
+    std::thread::Builder::new()
+        .stack_size(64 << 20)
+        .spawn(move || {
+            let _ = tx.send(f());
+        })
+        .ok()?;
+    rx.recv_timeout(std::time::Duration::from_secs(secs)).ok()
 }
 
 fn guarded(f: impl FnOnce() -> String) -> String {
